@@ -39,6 +39,9 @@ ASSUMPTIONS = [
 ]
 
 REAL_PY = os.path.realpath(_real.__file__)
+# real.py resolves a circular import lazily (module global PlaceHolder): do it now, so that the
+# line events seen by traced runs do not depend on what ran earlier in this process
+_real._TestRecord.create("warm-up", None).to_test_case()
 TAGS = ("a", "b", "c", "d")
 OUT_METHODS = ("addSuccess", "addFailure", "addError", "addSkip", "addExpectedFailure", "addUnexpectedSuccess")
 FAULT_METHODS = ("time", "startTest", "tags", "stopTest", "startTestRun", "stopTestRun", "stop", "done") + OUT_METHODS
